@@ -8,7 +8,7 @@
 //! `(borrow c)` .. `(end)` is one Rust scope holding the `ExecutionContextGuard`; in between, slot c
 //! denotes `*guard`.
 //! (build-array <ty> <value>...) / (build-map <ty> (#key <value>)...) -> (ok <value>) | (err)
-use crate::lang::{dec_scheme, dec_ty, dec_value, enc_value};
+use crate::lang::{dec_scheme, dec_ty, dec_value, dec_value_any, enc_value};
 use crate::sexp::Sexp;
 use std::panic::{AssertUnwindSafe, catch_unwind};
 use wirefilter::{
@@ -38,8 +38,8 @@ fn dec_op(s: &Sexp) -> Option<Op> {
     let h = l.first()?.as_sym()?;
     Some(match (h, &l[1..]) {
         ("new", [a, b]) => Op::New(a.as_usize()?, b.as_usize()?),
-        ("set", [c, h, f, v]) => Op::Set(c.as_usize()?, h.as_usize()?, f.as_usize()?, dec_value(v)?),
-        ("setn", [c, n, v]) => Op::SetN(c.as_usize()?, String::from_utf8(n.as_bytes()?.to_vec()).ok()?, dec_value(v)?),
+        ("set", [c, h, f, v]) => Op::Set(c.as_usize()?, h.as_usize()?, f.as_usize()?, dec_value_any(v, 1)?),
+        ("setn", [c, n, v]) => Op::SetN(c.as_usize()?, String::from_utf8(n.as_bytes()?.to_vec()).ok()?, dec_value_any(v, 2)?),
         ("get", [c, h, f]) => Op::Get(c.as_usize()?, h.as_usize()?, f.as_usize()?),
         ("clear", [c]) => Op::Clear(c.as_usize()?),
         ("clone", [a, b]) => Op::Clone(a.as_usize()?, b.as_usize()?),
